@@ -67,7 +67,7 @@ func pkgRelDir(pkgPath string) string {
 
 // writeNativeOverlay materialises the overlay used by `go test`: harness
 // files, intrinsics and a generated _test file with the harness registry.
-func (p *Program) writeNativeOverlay(dir string) (string, error) {
+func (p *Program) writeNativeOverlay(dir string, onlyRel string) (string, error) {
 	repl := map[string]string{}
 	os.MkdirAll(dir, 0o755)
 	i := 0
@@ -83,6 +83,9 @@ func (p *Program) writeNativeOverlay(dir string) (string, error) {
 		takesArg[name] = len(fn.Params) == 1
 	}
 	for virt, src := range p.overlay {
+		if filepath.Dir(virt) != filepath.Join(p.repoDir, onlyRel) {
+			continue // other packages' harnesses stay out (they may import this package)
+		}
 		real := filepath.Join(dir, fmt.Sprintf("f%d_%s", i, filepath.Base(virt)))
 		i++
 		if err := os.WriteFile(real, src, 0o644); err != nil {
@@ -91,6 +94,9 @@ func (p *Program) writeNativeOverlay(dir string) (string, error) {
 		repl[virt] = real
 	}
 	for rel, names := range byPkg {
+		if rel != onlyRel {
+			continue
+		}
 		sort.Strings(names)
 		var sb strings.Builder
 		fmt.Fprintf(&sb, "package %s\n\nimport \"testing\"\n\nvar vpHarnessTable = map[string]func(){\n", pkgName[rel])
@@ -121,7 +127,7 @@ func (p *Program) writeNativeOverlay(dir string) (string, error) {
 
 // runNative executes all cases of one package in one go test process.
 func (p *Program) runNative(rel string, cases []replayCase, scratch string) ([]replayOutcome, string, error) {
-	ov, err := p.writeNativeOverlay(filepath.Join(scratch, "ov"))
+	ov, err := p.writeNativeOverlay(filepath.Join(scratch, "ov-"+strings.ReplaceAll(rel, "/", "_")), rel)
 	if err != nil {
 		return nil, "", err
 	}
